@@ -472,3 +472,29 @@ def late_wake_history():
         tail = draw(st.lists(st.one_of(st.just(['storage']), st.just(['answer', OK]), st.just(['release', 0, OK])), min_size=4, max_size=12))
         return cfg, acts + tail + [['storage'], ['answer', OK], ['storage'], ['answer', OK], ['storage'], ['answer', OK], ['storage']]
     return strat()
+
+
+def own_write_announced_history():
+    """A store that announces every write (message-queue backed stores do) reports the new message to the running queue while
+    enqueue() has not yet been told the id: the message may be delivered and removed before enqueue() goes on."""
+    T = {'shape': 'raise_t', 'replies': [0]}
+    OK = {'shape': 'none'}
+
+    @st.composite
+    def strat(draw):
+        cfg = {'backend': draw(st.sampled_from(['dict', 'disk', 'redis', 'cloud'])), 'backoff': [draw(st.sampled_from([5, 0]))],
+               'backoff_forever': True, 'late': True, 'announce': True}
+        n = draw(st.integers(1, 3))
+        per = draw(st.lists(st.sampled_from(['ok', 'ok', 'temp', 'perm']), min_size=n, max_size=n))
+        outcome = draw(st.sampled_from([OK, OK, T, {'shape': 'map', 'per': per, 'replies': [0]}]))
+        acts = [['enqueue', {'n': n, 'sender': True, 'body': ''}],
+                ['release_kind', 'write', 0],           # stored (and announced by the store); enqueue() still waits for the id
+                ['announce', 0],
+                ['release_kind', 'get', 0], ['release_kind', 'get_done', 0], ['release_kind', 'relay', 0, outcome]]
+        for k_ in draw(st.lists(st.sampled_from(['remove', 'increment_attempts', 'set_timestamp', 'set_recipients_delivered']), max_size=4)):
+            acts.append(['release_kind', k_, 0])
+        acts.append(['release_kind', 'write_done', 0])       # only now enqueue() learns the id
+        tail = draw(st.lists(st.one_of(st.just(['storage']), st.just(['answer', OK]), st.just(['tick']),
+                                       st.integers(0, 3).map(lambda i: ['release', i, OK])), max_size=8))
+        return cfg, acts + tail
+    return strat()
